@@ -53,6 +53,9 @@ func genC09(seed uint64, tier string) *Plan {
 		p.X["sample"] = 0
 	}
 	p.X["crash_at"] = -1
+	if r.Chance(0.35) {
+		p.X["cancel_after"] = 1 + r.Intn(15)
+	}
 	// second history, run under the new bit size
 	vseq := 200000
 	mix := opMix{put: 35, get: 20, has: 5, size: 5, remove: 15, flush: 10, iter: 5, reput: 5}
@@ -144,6 +147,20 @@ func runRebits(p *Plan, tape *simrt.Tape, opt RunOpt) *RunOut {
 					return
 				}
 			}
+			// both the bit size and the index file size differ: still refused with
+			// the file-size error (the bit-size change must not mask it)
+			bad = d.Cfg
+			bad.Bits = b2
+			bad.IndexFile = d.Cfg.IndexFile/2 + 7
+			err = d.OpenWith(bad)
+			var ie2 types.ErrIndexWrongFileSize
+			if err == nil || !errors.As(err, &ie2) {
+				if err == nil {
+					d.St.Close()
+				}
+				d.fail("rebits/size-mismatch-not-refused", "reopen with %d bits and index file size %d (store has %d bits, file size %d) returned %v, want ErrIndexWrongFileSize", b2, bad.IndexFile, b1, d.Cfg.IndexFile, err)
+				return
+			}
 			d.Probes["mismatch-refused"]++
 			// original settings: contents intact
 			if err := d.Open(); err != nil {
@@ -159,6 +176,53 @@ func runRebits(p *Plan, tape *simrt.Tape, opt RunOpt) *RunOut {
 			}
 		}
 
+		// a re-bucketing interrupted by context cancellation after n context
+		// checks: it may fail, but whatever opens afterwards must have every key
+		if n := p.x("cancel_after", 0); n > 0 && mode == 0 {
+			cd := newCountdown(n)
+			cd.cancel = true
+			c2 := d.Cfg
+			c2.Bits = b2
+			err := d.OpenWithCtx(cd, c2)
+			if err == nil {
+				d.ReadBack("rebits/after-cancelled-translate")
+				if d.Viol != nil {
+					return
+				}
+				if !d.CloseStore("rebits") {
+					return
+				}
+				d.Probes["cancel-too-late"]++
+			} else {
+				d.Probes["translate-cancelled"]++
+			}
+			for _, bits := range []uint8{b2, b1} {
+				c3 := d.Cfg
+				c3.Bits = bits
+				if err := d.OpenWith(c3); err != nil {
+					continue // an interrupted re-bucketing may refuse to open
+				}
+				d.ReadBack("rebits/after-cancelled-translate")
+				if d.Viol != nil {
+					d.Viol.Class = "rebits/cancel-lost-key"
+					d.Viol.Msg = fmt.Sprintf("after a re-bucketing %d->%d bits cancelled at its %d-th context check, reopening with %d bits succeeded but: %s", b1, b2, n, bits, d.Viol.Msg)
+					return
+				}
+				if !d.CloseStore("rebits") {
+					return
+				}
+			}
+			// make sure the store is back under b1 for the rest of the case
+			c4 := d.Cfg
+			c4.Bits = b1
+			if err := d.OpenWith(c4); err != nil {
+				d.Probes["cancelled-translate-left-unopenable"]++
+				return
+			}
+			if !d.CloseStore("rebits") {
+				return
+			}
+		}
 		// translate
 		d.Cfg.Bits = b2
 		translating = true
